@@ -44,6 +44,27 @@ def declared_mutexes(cls):
     return opt, req
 
 
+def declared_spec(cls, lists=True):
+    """the class's declared children, computed from the class bodies along the MRO (PEP 520 order, a subclass's
+    declaration overriding its bases' in place) - NOT through the class's own spec machinery, which is what is being
+    checked"""
+    from ofxtools import Types
+    keys = {}
+    for base in reversed(cls.__mro__):
+        for k in base.__dict__:
+            keys.setdefault(k, None)
+    out = {}
+    for k in keys:
+        v = None
+        for base in cls.__mro__:
+            if k in base.__dict__:
+                v = base.__dict__[k]
+                break
+        if isinstance(v, (Types.Element, Types.Unsupported)) and (lists or not isinstance(v, (Types.ListAggregate, Types.ListElement))):
+            out[k] = v
+    return out
+
+
 def has_override(cls):
     from ofxtools.models.base import Aggregate
     return inspect.getattr_static(cls, "validate_args").__func__ is not Aggregate.__dict__["validate_args"].__func__
@@ -53,6 +74,8 @@ def _work(job):
     prop, names, tier, seed, carved = job
     rep = Report(prop, tier, seed)
     try:
+        from vlib.common import adversarial_warmup
+        adversarial_warmup()
         from pyvc import core as C
         from pyvc.values import SObj, SIte, SVal, SBool, V, ExcVal, zand, zor, zbool, znot
         from pyvc import models as M
@@ -125,8 +148,21 @@ def verify_class(rep, it, cls, prop, conv, conv_ok, carved):
     from ofxtools import Types
     from ofxtools.models.base import Aggregate
     cname = cls.__name__
-    attrs = list(cls.spec_no_listaggregates)
-    spec = cls.spec
+    # the derived class-level mappings are what the class bodies declare (whatever was computed before for other classes)
+    for nm, got, want in (("spec", cls.spec, declared_spec(cls)), ("spec_no_listaggregates", cls.spec_no_listaggregates, declared_spec(cls, lists=False))):
+        full = f"{prop}/ofxtools.models:{cname}/derived:{nm}-is-what-the-class-declares"
+        same = list(got.keys()) == list(want.keys()) and all(got[k] is want[k] for k in want)
+        if same:
+            rep.ok(full, "enumeration", 0.0, "top", f"ofxtools.models:{cname}.{nm}")
+        else:
+            missing = [k for k in want if k not in got]; extra = [k for k in got if k not in want]
+            rep.fail(full, "enumeration", f"{cname}.{nm}: missing {missing}, extra {extra}, order {'differs' if not missing and not extra else ''}", 0.0, "top", f"ofxtools.models:{cname}.{nm}")
+            rep.violation(full, {"class": cname, "clause": f"{nm} is what the class declares", "missing": missing, "extra": extra,
+                                 "python": ("import sys\nsys.path.insert(0, '/verif')\nfrom vlib.common import adversarial_warmup\nadversarial_warmup()\n"
+                                            "import ofxtools.models as m\nfrom props.aggclasses import declared_spec\n"
+                                            f"c = m.{cname}\nsys.exit(17 if list(c.{nm}.keys()) != list(declared_spec(c, lists={nm == 'spec'}).keys()) else 0)\n")})
+    attrs = list(declared_spec(cls, lists=False))
+    spec = declared_spec(cls)
     present, values, isnone = {}, {}, {}
     for a in attrs:
         present[a] = z3.Bool(f"{cname}.{a}.given")
